@@ -146,8 +146,9 @@ theorem appendCode_frame (cs : CState) (xs : SCode) :
     (appendCode cs xs).currFn = cs.currFn ∧ (appendCode cs xs).currModule = cs.currModule ∧
     (appendCode cs xs).loops = cs.loops ∧ (appendCode cs xs).varMangle = cs.varMangle ∧
     (appendCode cs xs).labelMangle = cs.labelMangle ∧ (appendCode cs xs).scopes = cs.scopes ∧
-    (appendCode cs xs).lambdaCount = cs.lambdaCount ∧ (appendCode cs xs).unsupported = cs.unsupported :=
-  ⟨rfl, rfl, rfl, rfl, rfl, rfl, rfl, rfl⟩
+    (appendCode cs xs).lambdaCount = cs.lambdaCount ∧ (appendCode cs xs).unsupported = cs.unsupported ∧
+    (appendCode cs xs).tryDepth = cs.tryDepth :=
+  ⟨rfl, rfl, rfl, rfl, rfl, rfl, rfl, rfl, rfl⟩
 
 theorem lookup_map_upd (fns : List ((String × String) × SFn)) (cur key : String × String) (g : SFn → SFn) :
     (fns.map fun p => if p.1 == cur then (p.1, g p.2) else p).lookup key =
